@@ -228,6 +228,15 @@ def run(sim, plan):
                 # an unsolicited secondary between the primaries (not judged)
                 peer.send_primary(1, 2, rc.ls(), False, system=0x7A000000 + len(injected))
         sim.advance(0.3)
+        # bounded liveness: at this quiescent point every W primary injected so far has its reply (an answer that only
+        # appears when later traffic arrives is no answer if none follows)
+        for inj in injected:
+            if inj["w"] and not inj.get("seen") :
+                if any(fr.system == inj["system"] for fr in peer.inbox):
+                    inj["seen"] = True
+                elif inj["cat"] not in ("user_none",):
+                    sim.violation("C08.R1", f"S{inj['s']}F{inj['f']}W #{inj['system']:#x} ({inj['cat']}) was still unanswered "
+                                  "0.3 virtual s after it arrived on a quiet link", sig=f"C08.R1|reply-stalled|{inj['cat']}")
     # quiescence: nested requests (S6F11 etc.) are answered by the peer at once; give T3 room anyway
     sim.advance(1.0)
     sim.wait_until(lambda: False, 0.5)
